@@ -124,9 +124,10 @@ async def merge(
     iterators = [aiter(iterable) for iterable in iterables]
     del iterables
     try:
-        # sortable iterators with (reverse) position to ensure stable sort for ties
+        # sortable iterators with position to ensure stable sort for ties:
+        # for equal heads, the iterable given first is yielded first in either direction
         iter_heap: "list[tuple[_KeyIter[Any], int]]" = [
-            (itr, idx if not reverse else -idx)
+            (itr, idx)
             async for idx, itr in a_enumerate(
                 _KeyIter[Any].from_iters(iterators, reverse, a_key)
             )
